@@ -18,20 +18,20 @@ func init() {
 }
 
 type nbEv struct {
-	Op     string  `json:"op"`
-	Tr     int     `json:"tr"`
-	Sub    string  `json:"sub"`
-	C      int     `json:"c"`
-	E      int     `json:"e"`
-	OK     bool    `json:"ok"`
-	Crash  bool    `json:"crash"`
-	Cls    string  `json:"cls"`
-	Ents   [][]int `json:"ents"`
-	Found  bool    `json:"found"`
-	Merged [][]int `json:"merged"`
-	Main   [][]int `json:"main"`
+	Op     string   `json:"op"`
+	Tr     int      `json:"tr"`
+	Sub    string   `json:"sub"`
+	C      int      `json:"c"`
+	E      int      `json:"e"`
+	OK     bool     `json:"ok"`
+	Crash  bool     `json:"crash"`
+	Cls    string   `json:"cls"`
+	Ents   [][]int  `json:"ents"`
+	Found  bool     `json:"found"`
+	Merged [][]int  `json:"merged"`
+	Main   [][]int  `json:"main"`
 	Args   []string `json:"args,omitempty"`
-	Note   string  `json:"note,omitempty"`
+	Note   string   `json:"note,omitempty"`
 }
 
 type nbDriver struct {
@@ -105,17 +105,17 @@ func (d *nbDriver) newTrace(cls string, ents []database.Command) {
 }
 
 type saveReq struct {
-	sub      string
-	command  string
-	desc     string
-	name     string // save-pipeline
-	keywords []string // raw -k values
-	category string
+	sub       string
+	command   string
+	desc      string
+	name      string   // save-pipeline
+	keywords  []string // raw -k values
+	category  string
 	platforms []string // raw values of the platforms flag
-	pipeline bool
-	useDesc  bool
-	dashdash bool
-	marker   string
+	pipeline  bool
+	useDesc   bool
+	dashdash  bool
+	marker    string
 }
 
 func csvSplit(vals []string) ([]string, bool) {
